@@ -23,6 +23,7 @@
    `pivmax` (a real_type holding absreal of the current best entry) is represented by that entry itself;
    [oabsgt a pm] stands for `absreal(a) > pivmax` and [oabsz pm] for `pivmax == real_type(0)`. *)
 From mathcomp Require Import ssreflect ssrfun ssrbool ssrnat seq.
+From DuneV Require Import Params_gen.
 Set Implicit Arguments.
 Unset Strict Implicit.
 Unset Printing Implicit Defensive.
@@ -33,7 +34,8 @@ Record c02_ops (F : Type) := C02Ops {
   odiv : F -> F -> F;            (* only ever called with a divisor that passed [ois0] = false *)
   ois0 : F -> bool;              (* x == 0 *)
   oabsz : F -> bool;             (* absreal(x) == real_type(0) *)
-  oabsgt : F -> F -> bool        (* absreal(a) > absreal(b) *)
+  oabsgt : F -> F -> bool;       (* absreal(a) > absreal(b) *)
+  oabslim : F -> bool            (* absreal(x) < FMatrixPrecision<>::absolute_limit()   (DUNE_FMatrix_WITH_CHECKING only) *)
 }.
 
 Inductive c02_res (T : Type) := C02_Ok (v : T) | C02_FMatrixError | C02_DivByZero.
@@ -266,8 +268,8 @@ Definition c02_invert (A : seq (seq F)) (doPivoting : bool) : c02_res (seq (seq 
     end.
 
 (* ---- the same with DUNE_FMatrix_WITH_CHECKING defined: closed forms first test
-   `absreal(det) < FMatrixPrecision<>::absolute_limit()` (default limit 1e-80; [oabsz] stands for this test, which over
-   an exact field is det == 0) and throw FMatrixError.  solve() has the test for n = 1, 2, 3; invert() for n = 1, 2 ONLY
+   `absreal(det) < FMatrixPrecision<>::absolute_limit()` (the test is [oabslim]; the default limit is re-read from precision.hh into
+   Params_gen.c02_param_abs_limit_*, see c02_zp_abslim) and throw FMatrixError.  solve() has the test for n = 1, 2, 3; invert() for n = 1, 2 ONLY
    (the 3x3 branch of invert divides unchecked).  This optional mode for n <= 3 is outside property C02. *)
 Definition c02_closed_det (A : seq (seq F)) : option F :=
   let n := c02_rows A in let a := c02_get A in
@@ -276,7 +278,7 @@ Definition c02_closed_det (A : seq (seq F)) : option F :=
   else if Nat.eqb n 3 then Some (c02_det3 A)
   else None.
 Definition c02_chk_singular (A : seq (seq F)) : bool :=
-  Nat.eqb (c02_rows A) (c02_cols A) && (match c02_closed_det A with Some d => oabsz ops d | None => false end).
+  Nat.eqb (c02_rows A) (c02_cols A) && (match c02_closed_det A with Some d => oabslim ops d | None => false end).
 Definition c02_solve_chk (A : seq (seq F)) (b : seq F) (doPivoting : bool) : c02_res (seq F) :=
   if c02_chk_singular A then C02_FMatrixError else c02_solve A b doPivoting.
 Definition c02_invert_chk (A : seq (seq F)) (doPivoting : bool) : c02_res (seq (seq F)) :=
@@ -333,6 +335,30 @@ Definition c02_diag_dense (d : seq F) : seq (seq F) :=
   let n := size d in mkseq (fun i => mkseq (fun j => if Nat.eqb i j then nth zero d i else zero) n) n.
 End Model.
 
+(* ---- calls that use the DEFAULT argument: `solve(x,b)`, `invert()`, `determinant()`.  The default values are re-read from
+   the declarations in densematrix.hh on every run (tools/params.d/C02.py -> Params_gen.v). *)
+Section Defaults.
+Variable F : Type.
+Variable ops : c02_ops F.
+Definition c02_solve_dflt (A : seq (seq F)) (b : seq F) := c02_solve ops A b c02_param_solve_default_pivoting.
+Definition c02_invert_dflt (A : seq (seq F)) := c02_invert ops A c02_param_invert_default_pivoting.
+Definition c02_determinant_dflt (A : seq (seq F)) := c02_determinant ops A c02_param_det_default_pivoting.
+
+(* ---- the objects after a call.  solve / determinant are const members working on a copy
+   (`AutonomousValue<MAT> A(asImp())`): the matrix object and b are what they were.  invert() overwrites the matrix object
+   only after every operation that can throw has been passed (n <= 3: the division 1/det comes first; n >= 4: luDecomposition
+   runs on a copy and throws before `this = field_type(0)`), so after an exception the matrix object is unchanged. *)
+Record c02_objs := C02Objs { ob_A : seq (seq F); ob_b : seq F }.
+Definition c02_call_solve (o : c02_objs) (piv : bool) : c02_res (seq F) * c02_objs := (c02_solve ops (ob_A o) (ob_b o) piv, o).
+Definition c02_call_determinant (o : c02_objs) (piv : bool) : c02_res F * c02_objs := (c02_determinant ops (ob_A o) piv, o).
+Definition c02_call_invert (o : c02_objs) (piv : bool) : c02_res unit * c02_objs :=
+  match c02_invert ops (ob_A o) piv with
+  | C02_Ok B => (C02_Ok tt, C02Objs B (ob_b o))
+  | C02_FMatrixError => (C02_FMatrixError, o)
+  | C02_DivByZero => (C02_DivByZero, o)
+  end.
+End Defaults.
+
 (* ---- the instance used by the correspondence check: integers modulo a prime p, representatives in [0,p) *)
 From Coq Require Import ZArith.
 Definition c02_zp_inv (p a : Z) : Z :=      (* a^(p-2) mod p by square-and-multiply; fuel 64 >= bits of p *)
@@ -342,9 +368,13 @@ Definition c02_zp_inv (p a : Z) : Z :=      (* a^(p-2) mod p by square-and-multi
      | fuel'.+1 => if Z.eqb e 0 then acc
                   else pw fuel' (Z.modulo (Z.mul b b) p) (Z.div e 2) (if Z.odd e then Z.modulo (Z.mul acc b) p else acc)
      end) 64 (Z.modulo a p) (Z.sub p 2) 1%Z.
+(* rep < mant * 10^exp10 as an exact comparison of rationals *)
+Definition c02_zp_abslim (a : Z) : bool :=
+  if Z.ltb c02_param_abs_limit_exp10 0 then Z.ltb (Z.mul a (Z.pow 10 (Z.opp c02_param_abs_limit_exp10))) c02_param_abs_limit_mant
+  else Z.ltb a (Z.mul c02_param_abs_limit_mant (Z.pow 10 c02_param_abs_limit_exp10)).
 Definition c02_zp (p : Z) : c02_ops Z :=
   C02Ops 0%Z (Z.modulo 1 p)
     (fun a b => Z.modulo (Z.add a b) p) (fun a b => Z.modulo (Z.sub a b) p) (fun a b => Z.modulo (Z.mul a b) p)
     (fun a => Z.modulo (Z.opp a) p)
     (fun a b => Z.modulo (Z.mul a (c02_zp_inv p b)) p)
-    (fun a => Z.eqb a 0) (fun a => Z.eqb a 0) (fun a b => Z.ltb b a).
+    (fun a => Z.eqb a 0) (fun a => Z.eqb a 0) (fun a b => Z.ltb b a) c02_zp_abslim.
